@@ -32,7 +32,9 @@ func genYEncCase(r *Rng, tier string) Case {
 	saved := tyMenus
 	tyMenus = encMenus
 	noEmptyMulti = true
-	defer func() { tyMenus = saved; noEmptyMulti = false }()
+	emptyMultiOnly = r.Chance(30)
+	keepEmpty := emptyMultiOnly
+	defer func() { tyMenus = saved; noEmptyMulti, emptyMultiOnly = false, false }()
 	g := &sgen{r: r, maxDepth: 2 + r.Intn(2)}
 	if tier == "thorough" {
 		g.maxDepth = 2 + r.Intn(3)
@@ -52,7 +54,9 @@ func genYEncCase(r *Rng, tier string) Case {
 		assignMods(r, top, 0, nil, pick(r, []int{12, 25, 45}))
 	}
 	data := map[string]any{"n": "root", "kids": genDataKids(r, top, pick(r, []int{55, 80, 95}))}
-	dropEmptyMulti(data)
+	if !keepEmpty {
+		dropEmptyMulti(data)
+	}
 	return Case{"k": "yenc", "top": top, "data": data}
 }
 
@@ -99,11 +103,22 @@ func walkOrd(sn schema.Node, n datanode.DataNode) string {
 	}
 	kids := n.YangDataChildren()
 	if len(kids) > 0 {
-		var ks []string
+		ks := []string{}
 		for _, k := range kids {
 			var csn schema.Node
 			if sn != nil {
 				csn = sn.Child(k.YangDataName())
+			}
+			// a list or leaf-list node without entries says what its absence says: nothing (XML has no way to write one)
+			switch csn.(type) {
+			case schema.List:
+				if len(k.YangDataChildren()) == 0 {
+					continue
+				}
+			case schema.LeafList:
+				if len(k.YangDataValues()) == 0 {
+					continue
+				}
 			}
 			ks = append(ks, walkOrd(csn, k))
 		}
@@ -114,7 +129,9 @@ func walkOrd(sn schema.Node, n datanode.DataNode) string {
 		if !keep {
 			sort.Strings(ks)
 		}
-		b.WriteString("(" + strings.Join(ks, ",") + ")")
+		if len(ks) > 0 {
+			b.WriteString("(" + strings.Join(ks, ",") + ")")
+		}
 	}
 	vals := n.YangDataValues()
 	if len(vals) > 0 {
@@ -196,6 +213,19 @@ func runYEnc(c Case) string {
 				out = append(out, e.name+":same")
 			} else {
 				out = append(out, e.name+":DIFF "+got)
+			}
+			// the tree a decoder hands back is a tree like any other: its encodings decode to it again (its root has no name)
+			for _, e2 := range []struct {
+				name string
+				enc  encoding.EncType
+				fn   func(schema.Node, datanode.DataNode) []byte
+			}{{"rfc7951", encoding.RFC7951, encoding.ToRFC7951}, {"xml", encoding.XML, encoding.ToXML}} {
+				again, err2 := encoding.NewUnmarshaller(e2.enc).SetValidation(schema.DontValidate).Unmarshal(ms, e2.fn(ms, back))
+				if err2 != nil {
+					out = append(out, e.name+">"+e2.name+":decode-err "+firstLine(err2.Error()))
+				} else if got := walkOrd(ms, again); got != want {
+					out = append(out, e.name+">"+e2.name+":DIFF "+got)
+				}
 			}
 		}()
 	}
